@@ -105,10 +105,36 @@ Proof. vm_compute. repeat split. Qed.
    logic (AST without docstrings, annotations, messages, local names): the model and the correspondence runs were validated against
    exactly these; a change of logic in any of them breaks this obligation and the check then searches for a failing input *)
 Theorem C07_source_pinned : CCT.Gen.Pins.pinned_C07 =
-  [(U"common.canonserialize", U"64fc1dee1d7349d7a920");
+  [(U"authentication._ascii", U"5f6fc6aad21f14d47c4f");
+   (U"authentication.verify_gpg_signature", U"ccbe2bc800d02410d16b");
+   (U"authentication.verify_signable", U"1bd56f9b4f5e7bcd88d9");
+   (U"authentication.verify_signature", U"7e0a2d567df7e9f0cdd4");
+   (U"common.MixinKey.from_hex", U"a6e4e81c0b16461490a5");
+   (U"common.MixinKey.to_hex", U"fcdaef7ed3d503ba84df");
+   (U"common.PrivateKey.from_bytes", U"2cb488fc935b61f65bba");
+   (U"common.PrivateKey.to_bytes", U"c9564ea6ce46886b972b");
+   (U"common.PublicKey.from_bytes", U"a439db0d070397bc2b47");
+   (U"common.PublicKey.to_bytes", U"1167c2299d20a5c711f2");
+   (U"common.canonserialize", U"64fc1dee1d7349d7a920");
+   (U"common.checkformat_byteslike", U"1c9da61d15ff3a1a9f97");
+   (U"common.checkformat_gpg_fingerprint", U"86e3bb7e4431fb481dc5");
+   (U"common.checkformat_gpg_signature", U"a3c5515ffb8c9f6183ba");
+   (U"common.checkformat_hex_key", U"625afdf8f56eb4c97143");
+   (U"common.checkformat_hex_string", U"eac17f8be3d488d4b8a0");
+   (U"common.checkformat_key", U"d3466826154e389f099e");
+   (U"common.checkformat_signable", U"dbb8b00a3a3727e018da");
+   (U"common.checkformat_signature", U"d544854022da28dcc399");
+   (U"common.is_gpg_signature", U"f236e9c50126a7909e84");
+   (U"common.is_hex_key", U"63c7822022cd24f926e2");
+   (U"common.is_hex_signature", U"433f44075f931ec629d6");
+   (U"common.is_hex_string", U"35e6d253e0c21ac09fca");
+   (U"common.is_signable", U"6932517519189d75eb93");
+   (U"common.is_signature", U"cc04b1fcfd687d0beea7");
    (U"common.load_metadata_from_file", U"f65eb5087b9ad786f4ff");
    (U"common.write_metadata_to_file", U"7e7340650f276f577b2b");
-   (U"signing.serialize_and_sign", U"b494a1c320877296ecf6")].
+   (U"signing.serialize_and_sign", U"b494a1c320877296ecf6");
+   (U"signing.sign_signable", U"752f8700cfb513a4c6ba");
+   (U"signing.wrap_as_signable", U"aa9e0c33a445b2f5590b")].
 Proof. reflexivity. Qed.
 (* END SOURCE PINS *)
 
